@@ -106,8 +106,9 @@ Theorem C09_sealed_instance_equals_reset_instance : forall cap lam pol seal polr
   model_epochs cap lam pol polr (fresh_inst ep (mk_vals vals) conf2 c2 es2) vals ep Ds.
 Proof. exact sealed_equals_reset. Qed.
 
-(* non-vacuity: the two-epoch run of props/C10.v (both epochs seal); Reset of the final instance of that run
-   back to epoch 1 and re-running gives the reference's result again *)
+(* non-vacuity: the two-epoch run of props/C10.v (both epochs seal) satisfies the hypotheses of the theorems
+   above (epochs_ok, pol_ok) and equals the reference.  The Reset theorem applied to a USED instance of that
+   run is C09_reset_example further down (round 3). *)
 Example C09_link_example :
   epochs_ok 1 0 ex_vals 1 me_Ds /\ pol_ok (mk_policy 1 0 ex_vals 1 2) 1 0 ex_vals 1 (length me_Ds) /\
   model_epochs 200 (fun _ => 0) (mk_policy 1 0 ex_vals 1 2) 0 (start 1 ex_vals) ex_vals 1 me_Ds = reference_epochs 1 0 ex_vals 1 me_Ds.
